@@ -9,6 +9,7 @@ import (
 	"fmt"
 
 	"verifharness/core"
+	"verifharness/srv"
 )
 
 var profiles = map[string]profile{
@@ -17,6 +18,7 @@ var profiles = map[string]profile{
 	"restart":  {name: "restart", report: 30, resigned: 4, replay: 4, hostile: 2, authNew: 5, authDup: 2, authBad: 1, authConflict: 4, authOtherKey: 1, authBanned: 1, regAgain: 1, impact: 2, clock: 8, tick: 3, stats: 3, restart: 20, syncq: 1},
 	"equip":    {name: "equip", report: 12, replay: 2, hostile: 2, authNew: 14, authDup: 8, authBad: 8, authConflict: 10, authOtherKey: 5, authBanned: 6, regAgain: 2, clock: 2, stats: 3, restart: 6, syncq: 4},
 	"register": {name: "register", report: 4, authNew: 6, authBad: 4, regAgain: 30, restart: 8, stats: 1},
+	"crash":    {name: "crash", report: 25, resigned: 2, replay: 3, hostile: 2, authNew: 6, authDup: 1, authConflict: 4, authOtherKey: 1, regAgain: 2, impact: 1, clock: 8, tick: 6, stats: 2, restart: 10},
 	"hostile":  {name: "hostile", report: 15, resigned: 2, replay: 3, hostile: 25, authNew: 3, authDup: 1, authBad: 3, authConflict: 2, authOtherKey: 1, authBanned: 1, regAgain: 3, impact: 5, clock: 10, tick: 5, stats: 12, restart: 4, syncq: 4},
 }
 
@@ -38,9 +40,21 @@ func opsHistory(res *core.Result, r *core.RNG, p profile, http bool, nops int) (
 	if k > 0 {
 		now0 = uint32(2016*k + 1984 + r.Intn(2000))
 	}
+	if p.name == "crash" {
+		srv.CaptureFromStart = func(n int) bool { return true }
+	}
 	s, err := newSim(res, r, p.name, now0, http)
+	srv.CaptureFromStart = nil
 	if err != nil {
 		return nil, err
+	}
+	if p.name == "crash" {
+		s.crash = true
+		// keep every crash point of the start-up/registration phase, then a sample
+		seen := 0
+		s.w.CaptureCrashPoints(func(n int) bool { seen++; return seen <= 14 || r.Intn(6) == 0 })
+		pre := s.w.S.VerifSnapshot()
+		s.opViews = append(s.opViews, opView{0, 0, pre, pre})
 	}
 	// before registration: nothing may be authorized (C07)
 	if p.name == "register" || p.name == "equip" || r.Chance(25) {
@@ -61,7 +75,11 @@ func opsHistory(res *core.Result, r *core.RNG, p profile, http bool, nops int) (
 		s.addDevice([]uint64{1000, 5000, 1 << 20, 100}[r.Intn(4)])
 	}
 	for i := 0; i < nops && s.alive && s.w.Failed == ""; i++ {
-		s.step(p)
+		if s.crash {
+			s.stepCrash(p)
+		} else {
+			s.step(p)
+		}
 		if i%20 == 19 && s.alive {
 			s.w.SnapHop()
 		}
@@ -74,6 +92,9 @@ func opsWorker(name string, res *core.Result, r *core.RNG, tier, out string) err
 	n, nops := 10, 45
 	if name == "weeks" || name == "restart" {
 		n, nops = 6, 40
+	}
+	if name == "crash" {
+		n, nops = 3, 30
 	}
 	if tier == "thorough" {
 		n *= 12
@@ -111,6 +132,7 @@ var requiredClasses = map[string][]string{
 	"equip":    {"authorize.new", "authorize.duplicate", "authorize.bad-signature", "authorize.conflict-field", "authorize.conflict-other-key", "authorize.banned-id", "authorize.before-registration", "equip.tour"},
 	"register": {"register.valid", "register.wrong-signer", "register.altered-key", "register.other-valid", "register.by-gca", "register.tour"},
 	"hostile":  {"dgram.hostile-random", "stats.misaligned", "hostile.tour"},
+	"crash":    {"crash.image", "crash.recovered", "restart"},
 }
 
 var tours = map[string][]func(*core.Result, *core.RNG) (*sim, error){}
